@@ -1104,7 +1104,7 @@ def family_optimality_multi(ctx, r, exact, n, opaque=False):
 
 def family_proxgrad_descent(ctx, r, exact, n, opaque=False):
     """min f(x) + 1/2|Ax-b|^2 with gamma <= 1/|A|^2: the objective never increases under
-    proximal_gradient, and FISTA reaches the same value (labelled test)."""
+    proximal_gradient (labelled test)."""
     import odl
     S = odl.solvers
     d, m = r.randint(1, 4), r.randint(1, 4)
@@ -1141,14 +1141,9 @@ def family_proxgrad_descent(ctx, r, exact, n, opaque=False):
         if k is not None:
             viol(ctx, 'proximal_gradient increases the objective f={} gamma*|A|^2<=1'.format(fk),
                  'F(x_{})={} > F(x_{})={}'.format(k + 1, vals[k + 1], k, vals[k]), p, A=A.tolist())
-        y = unflat(Aop.domain, x0)
-        st2, _ = guarded(S.accelerated_proximal_gradient, y, f, g, gamma, niter)
-        if st2 == 'ok':
-            va = float(f(y) + g(y))
-            if abs(va - vals[-1]) > 1e-4 * (1 + abs(vals[-1])) and np.linalg.cond(A.T.dot(A) + 1e-12 * np.eye(d)) < 1e2:
-                viol(ctx, 'accelerated_proximal_gradient and proximal_gradient reach different '
-                     'objective values f=' + fk, 'FISTA {} vs ISTA {} after {} iterations'.format(
-                         va, vals[-1], niter), p, A=A.tolist())
+        # (FISTA is checked against its published iteration and its rate bound in `ref_fista` /
+        # `fista_rate`; an ISTA-vs-FISTA value comparison after a fixed budget would demand
+        # convergence of ISTA within that budget, which the property does not state)
     else:
         viol(ctx, 'proximal_gradient raises f=' + fk, st, p)
     ctx.case(('test', 'proxgrad_descent', p['opkind'], fk))
